@@ -34,10 +34,10 @@ RULE = ('PART 1: each of the 19 public evaluation functions (poisson N/L/CL/S/M/
         'all rate assignments over {0,2} (thorough {0,1,2}) x observations of <=1 (thorough <=2) events x the 8 '
         'non-default (rate dtype, magnitude-bin dtype) pairs over {float64,int64,float32}, and every catalog function '
         'with int64 / float32 magnitude bins. Every produced result is written with csep.write_json and '
-        'loaded with csep.load_evaluation_result. A (function, input) pair is distinct by construction; it is '
+        'loaded with csep.load_evaluation_result, once at a fresh path and once over an existing longer result file at the same path. A (function, input) pair is distinct by construction; it is '
         'non-trivial iff the produced result holds a non-finite or NaN number, a None, a tuple-valued quantile or '
         'sim_name, a string-bearing distribution, or is of a subclass of EvaluationResult. '
-        'PART 2: lattices = dh {0.1,0.25,1.0,0.5} x 6 anchors, plus ONE further (dh, anchor) block out of 6 (dh 0.05/'
+        'PART 2: lattices = dh {0.1,0.25,1.0,0.5} x 6 anchors, 5 non-decimal spacings, 3 lattices with longitudes at/above 180 (0..360 convention), plus ONE further (dh, anchor) block out of 6 (dh 0.05/'
         '0.2/0.1, anchors incl. (179,89)) selected by VERIF_SEED (thorough: all 6 blocks) x every '
         'non-empty subset of cells of every extent nx,ny in 1..3 with nx*ny<=6, plus the full 3x3 (thorough: every '
         'subset of 3x3) x cell order row-major/column-major/reversed, de-duplicated on the ordered origin list; each '
@@ -208,6 +208,8 @@ def cases(tier, seed):
     pairs = [(dh, a) for dh in DHS_Q for a in ANCHORS_Q]
     # spacings whose cell origins need more than six decimals (binary fractions 1/128, 1/1024; 1/3; an arc-minute)
     pairs += [(0.0078125, (0.0, 0.0)), (0.0078125, (-0.5, 1.0)), (0.0009765625, (10.0, -20.0)), (1.0 / 3.0, (0.0, 0.0)), (1.0 / 60.0, (10.0, 45.0))]
+    # lattices that cross or lie beyond the antimeridian in the 0..360 longitude convention
+    pairs += [(1.0, (178.0, -1.0)), (0.5, (179.5, 10.0)), (1.0, (357.0, 0.0))]
     if thorough:
         pairs += SEED_BLOCKS                              # every seed-selectable block
     else:
@@ -357,16 +359,23 @@ class Ctx:
 
 
 def roundtrip(ctx, func, res, replay, label):
-    """Judges one produced result: write_json -> load_evaluation_result -> field-by-field comparison."""
+    """Judges one produced result twice: written to a fresh path, and written over an existing, LONGER result file at
+    the same path (the history 'store a result, store another one under the same name, load it')."""
+    _roundtrip(ctx, func, res, replay, label, over_existing=False)
+    _roundtrip(ctx, func, res, replay, label, over_existing=True)
+
+
+def _roundtrip(ctx, func, res, replay, label, over_existing):
     import csep
     cls = type(res).__name__
     fields = fields_of(res)
     dist = dist_of(res)
     ctx.h.update(repr((func, label, cls, sorted(fields.items()), dist)).encode())
-    ctx.states += 1
     ctx.evals += 1
-    if is_nontrivial(res, fields, dist):
-        ctx.nontrivial += 1
+    if not over_existing:
+        ctx.states += 1
+        if is_nontrivial(res, fields, dist):
+            ctx.nontrivial += 1
     ctx.add('result_classes', cls)
     ctx.add('producers_ok', func)
     for f in ('observed_statistic', 'quantile'):
@@ -382,8 +391,23 @@ def roundtrip(ctx, func, res, replay, label):
     path = os.path.join(fixtures.workdir(), 'c18_result.json')
 
     def fail(call, cls_, inp, detail):
+        if over_existing:
+            inp, detail = inp + ',over-existing-file', detail + ' | written over an existing longer result file at the same path'
         ctx.failures.append(Fail(f'{call}|{cls_}|{inp}', f'{detail} | produced by {site(func)} on {label}', rep))
     try:
+        if over_existing:
+            # the earlier result stored under this name: the same document with a much longer name and distribution
+            try:
+                csep.write_json(res, path)
+                with open(path) as fh:
+                    doc = json.load(fh)
+                doc['name'] = 'earlier result ' + 'x' * 400
+                if isinstance(doc.get('test_distribution'), list):
+                    doc['test_distribution'] = doc['test_distribution'] * 3 + [0.5] * 50
+                with open(path, 'w') as fh:
+                    json.dump(doc, fh)
+            except Exception:
+                return          # the writer fails on this result: already reported by the fresh-path pass
         ctx.transitions += 1
         try:
             csep.write_json(res, path)
